@@ -40,8 +40,8 @@ const fn mul_add(mut ui_a: u32, mut ui_b: u32, mut ui_c: u32, op: MulAddType) ->
 
     let sign_a = P32E2::sign_ui(ui_a);
     let sign_b = P32E2::sign_ui(ui_b);
-    let sign_c = P32E2::sign_ui(ui_c); //^ (op == softposit_mulAdd_subC);
-    let mut sign_z = sign_a ^ sign_b; // ^ (op == softposit_mulAdd_subProd);
+    let mut sign_c = P32E2::sign_ui(ui_c);
+    let mut sign_z = sign_a ^ sign_b;
 
     if sign_a {
         ui_a = ui_a.wrapping_neg();
@@ -51,6 +51,12 @@ const fn mul_add(mut ui_a: u32, mut ui_b: u32, mut ui_c: u32, op: MulAddType) ->
     }
     if sign_c {
         ui_c = ui_c.wrapping_neg();
+    }
+    // a*b - c negates the addend, c - a*b negates the product
+    match op {
+        MulAddType::SubC => sign_c = !sign_c,
+        MulAddType::SubProd => sign_z = !sign_z,
+        MulAddType::Add => {}
     }
 
     let (mut k_a, tmp) = P32E2::separate_bits_tmp(ui_a);
